@@ -22,6 +22,34 @@ def pid(l):
     return (p.id or "") if p is not None else ""
 
 
+_DOCUMENTED = None
+
+
+def documented_exceptions():
+    """the documented exception classes, read from the specification (Loc!DocumentedExc): one source of truth"""
+    global _DOCUMENTED
+    if _DOCUMENTED is None:
+        import os
+        import re
+
+        here = os.path.dirname(os.path.dirname(os.path.dirname(os.path.abspath(__file__))))
+        txt = open(os.path.join(here, "spec", "Loc.tla")).read()
+        body = txt[txt.index("DocumentedExc =="):]
+        body = body[:body.index("}")]
+        _DOCUMENTED = set(re.findall(r'"([A-Za-z0-9_]+)"', body))
+    return _DOCUMENTED
+
+
+def exc_name(e):
+    """The class under which an exception is judged: its own class when that is a documented one, otherwise its nearest
+    documented ancestor (a NEW subclass of a documented exception is a documented rejection), otherwise its own name."""
+    doc = documented_exceptions()
+    for c in type(e).__mro__:
+        if c.__name__ in doc:
+            return c.__name__
+    return type(e).__name__
+
+
 def outcome(fn, enc=lambda x: x):
     """Call fn(); return ["v", enc(result)...] or ["x", ExceptionClassName]."""
     try:
@@ -29,7 +57,7 @@ def outcome(fn, enc=lambda x: x):
     except BaseException as e:  # noqa: B902 -- every outcome of a call is judged, including internal errors
         if isinstance(e, (KeyboardInterrupt, SystemExit, MemoryError)):
             raise
-        return ["x", type(e).__name__]
+        return ["x", exc_name(e)]
     v = enc(r)
     return ["v"] + (list(v) if isinstance(v, tuple) else [v])
 
